@@ -131,7 +131,10 @@ def gen_urdf(rng, tier):
             lim = 0.3 if jt == "prismatic" else 1.5
             joints.append(dict(name=f"j{i}", type=jt, parent=f"l{parent}", child=f"l{i}", origin=o, axis=ax,
                                lower=-rng.uniform(0.1, lim), upper=rng.uniform(0.1, lim)))
-    return dict(name="robot", links=links, joints=joints)
+    if rng.random() < 0.5:      # declaration order is arbitrary in URDF: children may come before their parents
+        rng.shuffle(links)
+        rng.shuffle(joints)
+    return dict(name="robot", root="l0", links=links, joints=joints)
 
 
 def urdf_frames(u):
@@ -170,8 +173,8 @@ def gen_world(rng, tier, stream):
     if empty:
         for ln in u["links"]:
             ln["collisions"] = []
-    base = u["links"][0]["name"] if u else "base"
-    parents = [ln["name"] for ln in u["links"]] if u else ["base"]
+    base = u["root"] if u else "base"
+    parents = ([ln["name"] for ln in u["links"]] if u else ["base"]) + ["origin"]
     extras = []
     for k in range(0 if empty else
                    rng.choices([0, 1, 2, 3, 5], [0.35, 0.25, 0.2, 0.15, 0.05])[0] if use_urdf else rng.randint(1, 7)):
@@ -207,17 +210,22 @@ def gen_world(rng, tier, stream):
         return obs
 
     generated = False
-    if u:
-        generated = rng.random() < 0.7
-        cmds.append(dict(op="fill", whitelists=generated))
-        frames += uframes
     pending = list(range(len(extras)))
     rng.shuffle(pending)
     first = pending[:rng.randint(0, len(pending))] if u else pending
-    for k in first:
+    adds_first = bool(u) and rng.random() < 0.3     # colliders registered before the robot is loaded:
+    if u and not adds_first:                         # fill_tree_with_colliders has to move them too
+        generated = rng.random() < 0.7
+        cmds.append(dict(op="fill", whitelists=generated))
+        frames += uframes
+    for k in list(first):
         cmds.append(dict(op="add", extra=k))
         frames.append(extras[k]["frame"])
         pending.remove(k)
+    if u and adds_first:
+        generated = rng.random() < 0.7
+        cmds.append(dict(op="fill", whitelists=generated))
+        frames += uframes
     have_wl = generated and not first
 
     def maybe_wl(force=False):
@@ -245,7 +253,8 @@ def gen_world(rng, tier, stream):
                 cmds.append(dict(op="set_joint", joint=j["name"], value=v))
         for e in extras:
             if e["frame"] in frames and rng.random() < 0.4:
-                cmds.append(dict(op="move", frame=e["frame"], parent=e["parent"], T=gen_pose(rng, 0.6)))
+                cmds.append(dict(op="move", frame=e["frame"], parent=e["parent"], T=gen_pose(rng, 0.6),
+                                 inplace=rng.random() < 0.5))
         if pending and rng.random() < 0.5:
             k = pending.pop()
             cmds.append(dict(op="add", extra=k))
@@ -376,6 +385,8 @@ def world_to_coq(wres, off, fr):
             if code:
                 truncated = True
                 break
+            for i, st in rec.get("poked", []):
+                cmds.append(f"CPoke {i} {st}")
             continue
         elif op == "set_wl":
             push(("CReplaceWl " if rec["_replace"] else "CSetWl ") + wl_rows(list(rec["_wl"].items())), [0], k)
@@ -507,6 +518,8 @@ def judge_world(wcase, wres, stats):
         elif op in ("set_joint", "move"):
             if tm_dirty is not None:
                 tm_dirty = True
+            if rec.get("poked"):
+                inv_ok = False          # colliders moved through an aliased array: the tree is stale until update
         elif op == "fill":
             if frames_seen & set(rec.get("frames", [])):
                 pass                     # second fill replaces the objects: consistent again after its update
@@ -684,7 +697,9 @@ def run(tier, seed, replay=None):
         "plus 0-7 capsule/cone/mesh/sphere/box/cylinder colliders registered with add_collider (built away from their "
         "frame's transform); history = fill_tree_with_colliders (with/without generated whitelists), add_collider, "
         "hand-made (asymmetric, partial, replacing) whitelists, 1-5 rounds of random set_joint (incl. limits) / "
-        "add_transform followed by update_collider_poses, interleaved with aabb_overlapping_colliders (random query "
+        "add_transform (fresh array, or the array handed over earlier edited IN PLACE and added again; frames hanging directly "
+        "below 'origin' hand that very array to the colliders) followed by update_collider_poses; links / joints declared in "
+        "arbitrary order (children before parents); colliders registered before OR after fill_tree_with_colliders, interleaved with aabb_overlapping_colliders (random query "
         "colliders, whitelists incl. unknown names), aabb_overlapping_with_self, detect, detect_any, state dumps; at the "
         "end world A is queried against world B. ~15% of the cases form the 'beyond' stream (duplicate frame names, one "
         "object under two frames, frames unknown to the transform manager, queries on a stale tree, missing whitelist "
